@@ -246,6 +246,9 @@ def correspond(tier):
                 c.case(line, cfg["K"] >= 2 or cfg["d"] >= 2 or not inb)
                 c.count(f"d={cfg['d']}")
                 c.count(f"K={cfg['K']}")
+                used = sorted({int(a) for a in cfg["assign"]})
+                if len({float(cfg["dofs"][a]) for a in used}) >= 2:
+                    c.count("walker_in_runner_with_>=2_nonempty_modes_of_distinct_dof")
                 c.count("in_bounds" if inb else "out_of_bounds_rejected")
                 c.count(f"normal_draws={len(zs)}")
                 if per or refl:
@@ -431,11 +434,17 @@ def chi2_threshold():
     return float(chi2.isf(CHI2_P, NBINS - 1))
 
 
+TWO_MODES = [dict(mu=0.3, var=0.12 ** 2, nu=2.5), dict(mu=0.7, var=0.25 ** 2, nu=60.0)]
+
+
 def one_step_cell(kernel, boundary, sigma, beta, target, seed, n=200000, mode=None, steps=1):
-    """the oracle: returns dict(chi2, chi2_before, threshold, fails)"""
+    """the oracle: returns dict(chi2, chi2_before, threshold, fails).
+    mode="two": K = 2 modes with distinct means, scales and CLEARLY different dof (TWO_MODES); the assignment is a function of
+    the walker index (parity), fixed during the step, so each half is a chain with one fixed kernel and must keep the same
+    target: the statistic is the larger of the two per-half chi-squares."""
     from tempest.modes import ModeStatistics
     mode = mode or ("narrow" if target == "interior" else "wide")
-    mo = MODE[mode]
+    mos = TWO_MODES if mode == "two" else [MODE[mode]]
     rs = np.random.RandomState(seed)
     u = np.clip(_target_sample(target, beta, rs.rand(n)), 0.0, 1.0).reshape(n, 1)
     lfun = TARGETS[target]["l"]
@@ -443,19 +452,21 @@ def one_step_cell(kernel, boundary, sigma, beta, target, seed, n=200000, mode=No
     def log_likelihood(x):
         return lfun(np.asarray(x, dtype=float)[:, 0]), None
 
-    ms = ModeStatistics(np.array([[mo["mu"]]]), np.array([[[mo["var"]]]]), np.array([mo["nu"]]))
+    ms = ModeStatistics(np.array([[m["mu"]] for m in mos]), np.array([[[m["var"]]] for m in mos]),
+                        np.array([m["nu"] for m in mos]))
+    assign = (np.arange(n) % len(mos)).astype(int)
     per = np.array([0]) if boundary == "periodic" else None
     refl = np.array([0]) if boundary == "reflective" else None
     logl, _ = log_likelihood(u)
-    runner = _runner_cls(kernel)(u, u.copy(), logl, None, np.zeros(n, dtype=int), beta, ms, log_likelihood,
+    runner = _runner_cls(kernel)(u, u.copy(), logl, None, assign, beta, ms, log_likelihood,
                                  lambda t: t, None, 1, 1, per, refl)
     runner._check_convergence = lambda a: True
     runner._adapt_sigma = lambda c, a: None        # fixed step size: the property quantifies over one sigma
     # equiprobable bins (expected count n/NBINS in each; for the uniform target these are the equal-width bins)
     edges = np.asarray(_target_sample(target, beta, np.linspace(0.0, 1.0, NBINS + 1)), dtype=float)
     edges[0], edges[-1] = 0.0, 1.0
-    expct = n * np.diff(_target_cdf(target, beta, edges))
-    before = np.histogram(u[:, 0], bins=edges)[0]
+    prob = np.diff(_target_cdf(target, beta, edges))
+    ok = prob > 0
     with warnings.catch_warnings():
         warnings.simplefilter("ignore")
         with common.patched(np.random, "gamma", rs.gamma), common.patched(np.random, "randn", rs.randn), \
@@ -463,13 +474,22 @@ def one_step_cell(kernel, boundary, sigma, beta, target, seed, n=200000, mode=No
             for _ in range(steps):
                 runner.sigmas[:] = sigma
                 out = runner.run()
-    after = np.histogram(np.asarray(out[0])[:, 0], bins=edges)[0]
-    ok = expct > 0
-    chi_b = float(np.sum((before[ok] - expct[ok]) ** 2 / expct[ok]))
-    chi_a = float(np.sum((after[ok] - expct[ok]) ** 2 / expct[ok]))
+    v = np.asarray(out[0])[:, 0]
+    chi_b, chi_a, ratios = [], [], []
+    for c in range(len(mos)):
+        sel = assign == c
+        expct = sel.sum() * prob
+        before = np.histogram(u[sel, 0], bins=edges)[0]
+        after = np.histogram(v[sel], bins=edges)[0]
+        chi_b.append(float(np.sum((before[ok] - expct[ok]) ** 2 / expct[ok])))
+        chi_a.append(float(np.sum((after[ok] - expct[ok]) ** 2 / expct[ok])))
+        ratios.append([float(after[0] / expct[0]), float(after[-1] / expct[-1])] if expct[0] > 0 and expct[-1] > 0 else None)
     thr = chi2_threshold()
-    return {"chi2": chi_a, "chi2_before": chi_b, "threshold": thr, "fails": chi_a > thr and chi_b <= thr,
-            "edge_ratio": [float(after[0] / expct[0]), float(after[-1] / expct[-1])] if expct[0] > 0 and expct[-1] > 0 else None}
+    res = {"chi2": max(chi_a), "chi2_before": max(chi_b), "threshold": thr, "fails": max(chi_a) > thr and max(chi_b) <= thr,
+           "edge_ratio": ratios[int(np.argmax(chi_a))]}
+    if len(mos) > 1:
+        res["chi2_per_mode"] = chi_a
+    return res
 
 
 def one_step_cell_2d(kernel, boundary, rho, sigma, seed, n=200000, bins=5):
@@ -535,6 +555,11 @@ def _cells(tier):
     for kernel in ("tpcn", "rwm"):
         det.append((kernel, "hard", 0.5, 0.5, "interior", 1))
         det.append((kernel, "hard", 0.9, 0.5, "interior", 2))
+    # K = 2 modes with different dof / scale / mean (assignment by walker parity): a per-walker mix-up of mode statistics
+    # (e.g. one mode's dof used for every walker in the tpCN factor) is invisible to the single-mode cells
+    for kernel in ("tpcn", "rwm"):
+        det.append((kernel, "hard", 0.5, 1.0, "tilted", 1, "two"))
+    det.append(("tpcn", "hard", 0.8, 1.0, "uniform", 1, "two"))
     for kernel in ("rwm", "tpcn"):
         for target in ("uniform", "tilted"):
             det.append((kernel, "hard", 0.5, 1.0, target, 1))
@@ -568,15 +593,17 @@ def search(tier, hints):
         rest.sort(key=lambda c: 0 if c[0] in kinds else 1)
     found, new = [], 0
     for phase, cells in (("det", det), ("rest", rest)):
-        for kernel, boundary, sigma, beta, target, steps in cells:
-            tag = f"{kernel}/{boundary}/{sigma}/{beta}/{target}/{steps}"
+        for cell in cells:
+            kernel, boundary, sigma, beta, target, steps = cell[:6]
+            mode = cell[6] if len(cell) > 6 else None
+            tag = f"{kernel}/{boundary}/{sigma}/{beta}/{target}/{steps}" + (f"/{mode}" if mode else "")
             seed = (base * 1000003 + int(common.digest(tag), 16)) % (2 ** 31 - 1)
-            r = one_step_cell(kernel, boundary, sigma, beta, target, seed, n=n, steps=steps)
+            r = one_step_cell(kernel, boundary, sigma, beta, target, seed, n=n, steps=steps, mode=mode)
             if r["chi2_before"] > r["threshold"]:
                 raise common.LeanError(f"oracle self-check failed: exact sampler of target {target} has chi2 {r['chi2_before']}")
             if r["fails"]:
                 f = {"what": f"one-step invariance violated: chi2={r['chi2']:.1f} > {r['threshold']:.1f} (p<1e-9, {NBINS} bins, N={n})",
-                     "kernel": kernel, "boundary": boundary, "sigma": sigma, "beta": beta, "target": target, "steps": steps,
+                     "kernel": kernel, "boundary": boundary, "sigma": sigma, "beta": beta, "target": target, "steps": steps, "mode": mode,
                      "seed": seed, "n": n, "chi2": r["chi2"], "edge_ratio": r["edge_ratio"]}
                 kid = known_id(kernel, boundary, target)
                 if kid:
@@ -618,7 +645,7 @@ def replay(obj):
         r = one_step_cell_2d(f["kernel"], f["boundary"], f["rho"], f["sigma"], f["seed"], n=f.get("n", 200000))
         return {"fails": bool(r["fails"]), "detail": f"chi2={r['chi2']:.1f} threshold={r['threshold']:.1f} "
                                                      f"(before step: {r['chi2_before']:.1f}) corners={r['corner_ratio']}"}
-    r = one_step_cell(f["kernel"], f["boundary"], f["sigma"], f["beta"], f["target"], f["seed"], n=f.get("n", 200000),
+    r = one_step_cell(f["kernel"], f["boundary"], f["sigma"], f["beta"], f["target"], f["seed"], n=f.get("n", 200000), mode=f.get("mode"),
                       steps=f.get("steps", 1))
     return {"fails": bool(r["fails"]), "detail": f"chi2={r['chi2']:.1f} threshold={r['threshold']:.1f} "
                                                  f"(before step: {r['chi2_before']:.1f}) edge_ratio={r['edge_ratio']}"}
